@@ -108,6 +108,14 @@ func (p c13) Run(c *core.Ctx) {
 		fa = &world.FactoryAware{Nm: []string{"a-factory-aware", "z-factory-aware"}[c.Rng.Intn(2)]}
 		extra = append(extra, fa)
 	}
+	// a component whose definition is contributed programmatically by a factory post-processor (never
+	// passed to SetComponents): eager like any other, initialised before any runner
+	var contributed world.Node
+	if c.Rng.Intn(4) == 0 {
+		contributed = world.Palette[[]int{0, 1, 3}[c.Rng.Intn(3)]].New() // eager plain types with Init
+		contributed.Core().Name = []string{"a-contributed", "z-contributed"}[c.Rng.Intn(2)]
+		extra = append(extra, &world.RegistrarPP{Nodes: []world.Node{contributed}})
+	}
 	// stateless zero-size runners: distinct components even when their addresses coincide
 	var zeroRunners []string
 	if c.Rng.Intn(4) == 0 {
@@ -124,6 +132,9 @@ func (p c13) Run(c *core.Ctx) {
 			if !contains(sc.Nodes[f].Fails, "run") {
 				sc.Nodes[f].Fails = append(sc.Nodes[f].Fails, "run")
 				failing = append(failing, f)
+				if c.Rng.Intn(3) == 0 {
+					sc.Nodes[f].ZeroValueErrors = true // e.g. `type errNotLeader struct{}`: non-nil, but equal to its zero value
+				}
 			}
 		}
 	}
@@ -191,6 +202,19 @@ func (p c13) Run(c *core.Ctx) {
 			return
 		}
 		c.Count("factory_aware_components_checked", 1)
+	}
+	if contributed != nil && creationFault < 0 {
+		ci := -1
+		for _, e := range ev {
+			if (e.Kind == "init" || e.Kind == "aps") && e.Who == contributed.DisplayName() {
+				ci = e.Seq
+			}
+		}
+		if len(seq)+len(zeroRan) > 0 && (ci < 0 || ci > firstRun) {
+			fail(fmt.Sprintf("a runner ran (event %d) although the eager component %s, whose definition a factory post-processor contributed, had not been initialised (its Init: %d)", firstRun, contributed.DisplayName(), ci))
+			return
+		}
+		c.Count("programmatically_contributed_components_checked", 1)
 	}
 	for i, k := range ran {
 		if k > 1 {
